@@ -5,6 +5,7 @@ import (
 	"encoding/json"
 	"fmt"
 	"sort"
+	"strconv"
 	"strings"
 
 	"verif/mc/core"
@@ -28,6 +29,29 @@ type c07Case struct {
 	Store  []store.Pair `json:"store"`
 	Mode   string       `json:"mode"`
 	B      int          `json:"b"`
+	// NumText: columns declared as numbers that arrive as decimal text (numeric group keys)
+	NumText []int `json:"num_text,omitempty"`
+}
+
+// numTextCol converts the text of a numeric group key back to a number.
+func (c *c07Case) numTextCol(col int, v any) any {
+	for _, nc := range c.NumText {
+		if nc == col {
+			var s string
+			switch t := v.(type) {
+			case []byte:
+				s = string(t)
+			case string:
+				s = t
+			default:
+				return v
+			}
+			if f, err := strconv.ParseFloat(s, 64); err == nil {
+				return f
+			}
+		}
+	}
+	return v
 }
 
 func (c *c07Case) orderClause() string {
@@ -79,6 +103,12 @@ func c07Sels() []c07Sel {
 		{sel: "select substr(key, 0, 1) as g, sum(int(value)) as s, count(1) as c, sum(float(value)) as sf, sum(value) as sv, min(value) as mv where true group by g",
 			names: []string{"g", "s", "c", "sf", "sv", "mv"}, cols: []int{0, 1, 2, 3, 4, 5}, kind: "num", aggr: true},
 		{sel: "select * where key != 'zz'", names: []string{"key", "value"}, cols: []int{0, 1}, kind: "text"},
+		// numeric group keys (they reach the order plan as decimal text): negative
+		// numbers and floats whose integer parts differ in width
+		{sel: "select int(value) as n, count(1) as c, sum(strlen(key)) as sk where true group by n",
+			names: []string{"n", "c", "sk"}, cols: []int{0, 1, 2}, kind: "signed", aggr: true},
+		{sel: "select float(value) as f, count(1) as c where true group by f",
+			names: []string{"f", "c"}, cols: []int{0, 1}, kind: "signedf", aggr: true},
 		// fields defined through other fields: their type is known only once the names are resolved
 		{sel: "select key, value as v, v + '!' as vx, strlen(v) as l, l * 2 - 1 as m where true",
 			names: []string{"v", "vx", "l", "m"}, cols: []int{1, 2, 3, 4}, kind: "text"},
@@ -172,8 +202,13 @@ func (c07) RunUnit(t core.Tier, u int, r *core.Reporter) {
 	un := c07Units(t)[u]
 	s := c07Sels()[un.sel]
 	vals := c07NumVals
-	if s.kind == "text" {
+	switch s.kind {
+	case "text":
 		vals = c07TextVals
+	case "signed":
+		vals = []string{"-5", "-3", "-10", "4"}
+	case "signedf":
+		vals = []string{"-5", "-3.5", "100", "9.5"}
 	}
 	var stores [][]store.Pair
 	maxLen := 2
@@ -212,6 +247,9 @@ func (c07) RunUnit(t core.Tier, u int, r *core.Reporter) {
 		for _, ps := range stores {
 			for _, cfg := range cfgs {
 				c := c07Case{Select: s.sel, Orders: sp, Store: ps, Mode: cfg.mode, B: cfg.b}
+				if s.kind == "signed" || s.kind == "signedf" {
+					c.NumText = []int{0}
+				}
 				if !r.Begin(func() *core.Failure {
 					return &core.Failure{Property: "C07", Leg: "sorted-permutation", Case: c.text(), Data: core.MustJSON(c)}
 				}) {
@@ -312,6 +350,9 @@ func c07Judge(c *c07Case) (f *core.Failure, nontrivial bool, status, observed st
 	if base.BuildErr != nil && base.Panic == "" {
 		return nil, false, "rejected", "rejected"
 	}
+	if base.Panic != "" {
+		return mk("panic", "rows or an error value", base.Describe()), false, "", base.Status()
+	}
 	if base.Failed() {
 		return nil, false, "unordered-fails", base.Status()
 	}
@@ -338,7 +379,7 @@ func c07Judge(c *c07Case) (f *core.Failure, nontrivial bool, status, observed st
 			if o.Col >= len(a) || o.Col >= len(b) {
 				return mk("missing-order-column", "order column present", ord.Rows[i]), true, "", observed
 			}
-			cmp, ok := cmpCol(a[o.Col], b[o.Col])
+			cmp, ok := cmpCol(c.numTextCol(o.Col, a[o.Col]), c.numTextCol(o.Col, b[o.Col]))
 			if !ok {
 				status = "incomparable-kinds"
 				break
@@ -363,7 +404,7 @@ func c07Judge(c *c07Case) (f *core.Failure, nontrivial bool, status, observed st
 	// ORDER BY under LIMIT: the window [s, s+n) of the sorted sequence. Rows that
 	// tie on all order fields are interchangeable, so the window is compared on
 	// the order columns, and every returned row must be a row of the result.
-	if status == "ok" && len(ord.Rows) >= 2 {
+	if status == "ok" && len(ord.Rows) >= 3 {
 		keyOf := func(raw []any) string {
 			var b strings.Builder
 			for _, o := range c.Orders {
